@@ -871,6 +871,9 @@ class PolyhedralTermList(TermList):  # noqa: WPS338
             ValueError: Constraints are likely unfeasible.
         """
         obj = PolyhedralTermList([PolyhedralTerm(variables=objective, constant=0)])
+        if not self.terms:
+            # without constraints, every non-constant objective is unbounded
+            return None if obj.vars else 0
         _, self_mat, self_cons, obj_mat, _ = PolyhedralTermList.termlist_to_polytope(self, obj)  # noqa: WPS236
         polarity = 1
         if maximize:
